@@ -1,6 +1,6 @@
 #!/bin/bash
 # usage: tools/runall.sh [quick|thorough]  -- runs every check on the current tree, one after the other
-cd /verif
+cd "$(dirname "$0")/.."
 TIER=${1:-quick}
 for i in 01 02 03 04 05 06 07 08 09 10 11 12 13 14 15 16 17; do
   s=$(date +%s)
